@@ -158,8 +158,10 @@ class SCPConnection(object):
         self.sock.setblocking(False)
 
         # Calculate the receive length, this should be the smallest power of
-        # two greater than the required size
-        max_length = buffer_size + consts.SDP_HEADER_LENGTH
+        # two greater than the required size (a full buffer of data preceded
+        # by two padding bytes, the SDP header, the return code and sequence
+        # number)
+        max_length = buffer_size + consts.SDP_HEADER_LENGTH + 6
         receive_length = int(2**math.ceil(math.log(max_length, 2)))
 
         class TransmittedPacket(object):
